@@ -10,10 +10,13 @@ package main
 import (
 	"fmt"
 	"os"
-
+	"path/filepath"
+	"sync"
+	"time"
 
 	"github.com/google/mtail/internal/zzverif/mrun"
 	"github.com/google/mtail/internal/zzverif/vlib"
+	"github.com/google/mtail/internal/zzverif/xlate"
 )
 
 type cfg struct {
@@ -68,19 +71,171 @@ func alphabet(c cfg, r *vlib.Rand) []mrun.Op {
 	return ops
 }
 
+func repoDir() string {
+	if d := os.Getenv("VERIF_REPO"); d != "" {
+		return d
+	}
+	return "/repo"
+}
+
+// emitterIR re-extracts the statement IR of Metric.EmitLabelSets from the
+// current source.
+func emitterIR() []xlate.ENode {
+	met, err := xlate.LoadPkg(filepath.Join(repoDir(), "internal", "metrics"))
+	if err != nil {
+		return []xlate.ENode{{K: "Unknown", Why: err.Error()}}
+	}
+	ir, err := xlate.EmitProtoIR(met)
+	if err != nil {
+		return []xlate.ENode{{K: "Unknown", Why: err.Error()}}
+	}
+	return ir
+}
+
+// one enumeration by a slow consumer: a metric of `live` tuples (some removed
+// again, one re-created so that it moves to the end, some updated) and the
+// pauses (ms) before the consumer's receives
+type slowSpec struct {
+	c      cfg
+	ops    []mrun.Op
+	pauses []int64
+	res    mrun.SlowCase
+}
+
+func slowOps(c cfg, rng *vlib.Rand, n int) []mrun.Op {
+	mk := func(k int) []string {
+		t := make([]string, c.arity)
+		for j := range t {
+			t[j] = fmt.Sprintf("s%d", k)
+		}
+		return vlib.Qs(t)
+	}
+	var ops []mrun.Op
+	for k := 0; k < n; k++ {
+		ops = append(ops, mrun.Op{K: "set", Ls: mk(k), V: val(c.ty, rng, k), T: int64(1000 + k)})
+	}
+	for k := 1; k < n; k += 3 {
+		if n > 2 {
+			ops = append(ops, mrun.Op{K: "remove", Ls: mk(k)})
+		}
+	}
+	if n > 4 {
+		ops = append(ops, mrun.Op{K: "set", Ls: mk(1), V: val(c.ty, rng, 77), T: 3000}) // re-created: now the last one
+		ops = append(ops, mrun.Op{K: "expire", Ls: mk(0), E: int64(1 + rng.Intn(1000))})
+	}
+	if c.ty == "int" && n > 0 {
+		ops = append(ops, mrun.Op{K: "inc", Ls: mk(0), D: 5, T: 4000})
+	}
+	return ops
+}
+
+// pausesAt builds a pause list with the given (position, ms) pairs.
+func pausesAt(pairs ...int64) []int64 {
+	var ps []int64
+	for i := 0; i+1 < len(pairs); i += 2 {
+		for int64(len(ps)) <= pairs[i] {
+			ps = append(ps, 0)
+		}
+		ps[pairs[i]] = pairs[i+1]
+	}
+	return ps
+}
+
+func slowSpecs(rng *vlib.Rand, thorough bool) []*slowSpec {
+	mk := func(ci, n int, pauses []int64) *slowSpec {
+		c := cfgs[ci%len(cfgs)]
+		return &slowSpec{c: c, ops: slowOps(c, rng, n), pauses: pauses}
+	}
+	sp := []*slowSpec{
+		mk(0, 4, pausesAt(1, 200)),                       // receive one label set, pause, drain
+		mk(1, 3, pausesAt(0, 200, 1, 200, 2, 200, 3, 200)), // a pause before every receive, the closing one included
+		mk(2, 1, pausesAt(0, 200, 1, 200)),
+		mk(3, 0, pausesAt(0, 200)), // no live tuple: only the close
+		mk(4, 40+rng.Intn(30), pausesAt(1, 1200)),
+		mk(5, 6, pausesAt(int64(2+rng.Intn(3)), 1200)),
+		mk(6, 2, pausesAt(0, 1200)), // the consumer is late for the first label set
+		mk(7, 5, pausesAt(1, 6000)),
+	}
+	if thorough {
+		sp = append(sp,
+			mk(0, 5, pausesAt(1, 11000)),
+			mk(1, 4, pausesAt(1, 31000)),
+			mk(2, 3, pausesAt(0, 6000)),
+			mk(3, 7, pausesAt(5, 6000)), // before the last label set
+			mk(4, 3, pausesAt(3, 11000)), // before the receive that sees the close
+			mk(5, 70, pausesAt(1, 2500, 30, 2500, 31, 2500)),
+		)
+		for i := 0; i < 24; i++ {
+			n := 1 + rng.Intn(12)
+			var ps []int64
+			for k := 0; k <= n; k++ {
+				ps = append(ps, vlib.Pick(rng, []int64{0, 0, 50, 200, 700}))
+			}
+			sp = append(sp, mk(i, n, ps))
+		}
+	}
+	return sp
+}
+
 func main() {
 	a := vlib.ParseArgs()
-	out := vlib.NewOut(a, "From V Require Import Corr.MetricRun.", "mcase", 700)
+	out := vlib.NewOut(a, "From V Require Import Corr.Run_C09.", "c09case", 700)
 	rng := vlib.NewRand(a.Seed)
 	if a.Replay != "" {
 		var v struct {
 			Case map[string]any `json:"case"`
 		}
 		vlib.ReadJSON(a.Replay, &v)
-		if mrun.ReplayRun(v.Case["case"]) {
+		failed := false
+		switch v.Case["kind"] {
+		case "slow":
+			failed = mrun.ReplaySlow(v.Case["case"])
+		case "emit-structure":
+			ir := emitterIR()
+			ok, why := xlate.EmitShapeOK(ir)
+			fmt.Printf("  EmitLabelSets reads as: %s\n", xlate.EmitKinds(ir))
+			if !ok {
+				fmt.Println("FAILS [emit-structure-changed]:", why)
+			}
+			failed = !ok
+		default:
+			failed = mrun.ReplayRun(v.Case["case"])
+		}
+		if failed {
 			os.Exit(1)
 		}
 		return
+	}
+	if err := xlate.SelfTestEmit(); err != nil {
+		fmt.Fprintln(os.Stderr, "translator self-test failed:", err)
+		os.Exit(4)
+	}
+	// the producer's structure, re-extracted from the source of this run
+	ir := emitterIR()
+	irCoq := xlate.EmitCoq(ir)
+	shapeOK, shapeWhy := xlate.EmitShapeOK(ir)
+	{
+		id := out.NextID()
+		j := map[string]any{"kind": "emit-structure", "ir": ir, "reads_as": xlate.EmitKinds(ir), "accepted": shapeOK}
+		out.Add(vlib.App("CEmitShape", vlib.N(id), irCoq, vlib.Bool(shapeOK)), j, true)
+		out.Count("emit-structure")
+		if !shapeOK {
+			out.Violate("emit-structure-changed",
+				"Metric.EmitLabelSets is no longer a loop of unconditional sends over the label values followed by one close ("+
+					xlate.EmitKinds(ir)+"): "+shapeWhy+"; C09_emit_complete_any_consumer does not apply to this producer",
+				map[string]any{"kind": "emit-structure", "what": "static: structure of EmitLabelSets", "ir": ir, "why": shapeWhy})
+		}
+	}
+	// slow consumers run in the background from the start (their pauses are
+	// wall-clock time) and are judged at the end
+	specs := slowSpecs(rng.Fork(), a.Thorough())
+	var slowWG sync.WaitGroup
+	for _, sp := range specs {
+		slowWG.Add(1)
+		go func(sp *slowSpec) {
+			defer slowWG.Done()
+			sp.res = mrun.RunSlow(sp.c.arity, sp.c.ty, sp.c.kind, sp.ops, sp.pauses, 45*time.Second)
+		}(sp)
 	}
 	run := func(c cfg, ops []mrun.Op, tag string) {
 		ops = append(ops, mrun.Op{K: "emit"})
@@ -95,7 +250,7 @@ func main() {
 				removes++
 			}
 		}
-		out.Add(mrun.CoqRunCase(id, rc), rc, creates >= 1 && removes >= 1)
+		out.Add("(CM "+mrun.CoqRunCase(id, rc)+")", rc, creates >= 1 && removes >= 1)
 		out.Count(tag + "/" + c.kind + "/" + c.ty)
 		if cl, what := mrun.CheckRun(rc); cl != "" {
 			out.Violate(cl, what, map[string]any{"kind": "run", "case": rc})
@@ -206,6 +361,19 @@ func main() {
 		ops = append(ops, mrun.Op{K: "get", Ls: mk(order[live-1])}, mrun.Op{K: "remove", Ls: mk(order[live-1])})
 		run(c, ops, "burst")
 	}
+	// population waves: above, below and above a size threshold again, new label
+	// sets created in every phase, then every label set ever used is touched
+	nwv := 8
+	if a.Thorough() {
+		nwv = 100
+	}
+	for i := 0; i < nwv; i++ {
+		c := cfgs[i%len(cfgs)]
+		if c.ty != "int" {
+			c = cfgs[0]
+		}
+		run(c, mrun.Waves(rng, c.arity, func(k int) *mrun.Value { return val(c.ty, rng, k) }), "waves")
+	}
 	// concurrent first touch (search aid; the model is sequential): several
 	// goroutines look up the same new tuple, then the metric must list it once
 	trials := 4000
@@ -215,5 +383,30 @@ func main() {
 	if cl, what := mrun.ConcurrentCreate(trials); cl != "" {
 		out.Violate(cl, what, map[string]any{"kind": "concurrent-create", "trials": trials})
 	}
-	out.Flush("every operation sequence up to the stated length over {get,set,inc,remove,expire}x{3 tuples, one of wrong arity}+{emit} for the first configurations, plus random sequences of length 5..200 for every (kind,type); a final emit is appended; non-trivial = at least one successful creation and at least one remove/expire; distinct by hash of the full case", false)
+	// the slow consumers
+	slowWG.Wait()
+	for _, sp := range specs {
+		sc := sp.res
+		maxPause, listed := int64(0), len(sc.Obs[len(sc.Obs)-1].L)
+		for _, p := range sc.PausesMs {
+			if p > maxPause {
+				maxPause = p
+			}
+		}
+		wrapped := map[string]any{"kind": "slow", "case": sc}
+		id := out.NextID()
+		out.Add(mrun.CoqSlowCase(id, sc, irCoq), wrapped, listed >= 2 && maxPause > 0)
+		out.Count(fmt.Sprintf("slow-consumer/max-pause-%dms", maxPause))
+		id = out.NextID()
+		out.Add("(CM "+mrun.CoqRunCase(id, sc.AsRun())+")", sc.AsRun(), false)
+		out.Count("slow-consumer/as-run")
+		if cl, what := mrun.CheckSlow(sc); cl != "" {
+			out.Violate(cl, what, wrapped)
+		}
+		for _, pr := range sc.Prob {
+			out.Violate("listing-inconsistent", pr, wrapped)
+		}
+	}
+	out.Extra["emitter_ir"] = xlate.EmitKinds(ir)
+	out.Flush("the statement IR of EmitLabelSets re-extracted from the source (1 case); every operation sequence up to the stated length over {get,set,inc,remove,expire}x{3 tuples, one of wrong arity}+{emit} for the first configurations, plus random sequences of length 5..200 for every (kind,type); a final emit is appended; enumerations by a slow consumer (pauses of 200 ms, 1.2 s, 6 s; thorough also 11 s and 31 s) on metrics with removed and re-created tuples; non-trivial = at least one successful creation and at least one remove/expire (slow consumer: at least two label sets listed and a pause > 0); distinct by hash of the full case", false)
 }
